@@ -17,6 +17,17 @@
 //!     later write call fails with `BrokenPipe`.
 //!   * `rate:<8 hex of f32 bits>` (optional, sampled formatters only; ignored for plain ones): the step
 //!     calls `format_with_sample_rate` with this rate instead of the one stored in `BuiltFmt`.
+//!   * `pre:<op>,<op>…` (optional): operations on the POOL of formatters executed before the step - `c<k>`:
+//!     `Emf::clone` of formatter k, appended to the pool; `s<k>` / `g<k>` / `o<k>`: formatter k is moved into
+//!     `with_sampling_and_rng` / `FormatExt::merge_globals(entry "VerifGlobal"="g")` / `FormatExt::output_to`
+//!     (then used through `EntryIoStream::next`). All need a plain `Emf`. Formatter 0 is the one built from
+//!     the configuration. `on:<k>`: the formatter that formats this step (default 0). `m:<n>`: this step's
+//!     multiplicity (sampled formatters only) instead of the configuration's.
+//!   * `panic:<item>:<site><k>` (optional): the entry panics while item number `item` is written (`w`: in
+//!     `Entry::write` before it, `d`/`o`: the metric's dimension / observation iterator after yielding k
+//!     elements); contained by `catch_unwind`, observable `panic 0 - j1 f1`, the formatter is used again.
+//!   * `skip` (optional): the step is not run in the Lean model (reply `skipped`): entries with hundreds of
+//!     thousands of pushes; the model's later answers do not depend on it (theorem c14_history_independent).
 //! Steps whose entry has no `T` item make the formatter read the clock: in every output line the digits
 //! after the first `"Timestamp":` are replaced by `0` before anything else is computed (nbytes too).
 //!
@@ -41,7 +52,9 @@
 //! (`emf:framing` / `emf:invalid-json` / `emf:aws-shape`); validation error => zero bytes
 //! (`emf:validation-wrote-bytes`); invalid `rate:` => validation error and zero bytes (`emf:bad-rate`);
 //! no panic (`emf:panic`). Duplicate member names are counted (`dup-members`), not failed.
-//! C14, every step i: formatting the same step on a FRESH formatter of the same cfg gives the same result
+//! C14, every step i (whatever formatter of the pool formats it: the original, a clone of a used formatter,
+//! a wrapped one; after accepted, rejected, io-failed, panicking steps): formatting the same step on a
+//! FRESH formatter of the same cfg, wrapped the same way, gives the same result
 //! class (`ok`/`io`/`val:<kinds>`), for non-io results the same multiset of lines, for io the same
 //! nbytes (`emf:history-dependence`); no panic (`emf:panic`).
 //! Failures are shrunk (steps, formatter configuration, items of every entry, observation lists) before
@@ -75,14 +88,78 @@ use verif_harness::gen_entry::*;
 use verif_harness::strict_json::{self, J};
 use verif_harness::*;
 
+/// calls `$call` with `$e` bound to the step's entry, or to its panicking variant
+macro_rules! with_entry {
+    ($step:expr, |$e:ident| $call:expr) => {
+        match $step.panic {
+            Some((item, site, k)) => {
+                let $e = &PanicEntry { e: &$step.entry, item, site, k };
+                $call
+            }
+            None => {
+                let $e = &$step.entry;
+                $call
+            }
+        }
+    };
+}
+
 // ------------------------------------------------------------------------------------------------
 // cases
+
+/// an operation on the pool of formatters, executed before a step
+#[derive(Clone, Copy, PartialEq, Debug)]
+enum Op {
+    /// `c<k>`: `Emf::clone` of formatter k, appended to the pool
+    Clone(usize),
+    /// `s<k>`: formatter k is moved into `with_sampling_and_rng`
+    Sampling(usize),
+    /// `g<k>`: formatter k is moved into `FormatExt::merge_globals(GLOBAL entry)`
+    Globals(usize),
+    /// `o<k>`: formatter k is moved into `FormatExt::output_to(writer)` and used through `EntryIoStream::next`
+    Stream(usize),
+}
+
+impl Op {
+    fn encode(&self) -> String {
+        match self {
+            Op::Clone(k) => format!("c{k}"),
+            Op::Sampling(k) => format!("s{k}"),
+            Op::Globals(k) => format!("g{k}"),
+            Op::Stream(k) => format!("o{k}"),
+        }
+    }
+    fn decode(t: &str) -> Option<Op> {
+        let k: usize = t.get(1..)?.parse().ok()?;
+        match t.as_bytes().first()? {
+            b'c' => Some(Op::Clone(k)),
+            b's' => Some(Op::Sampling(k)),
+            b'g' => Some(Op::Globals(k)),
+            b'o' => Some(Op::Stream(k)),
+            _ => None,
+        }
+    }
+}
 
 #[derive(Clone)]
 struct Step {
     entry: GenEntry,
     io: Option<usize>,
     rate: Option<u32>,
+    /// pool operations executed before this step
+    pre: Vec<Op>,
+    /// the formatter of the pool that formats this step
+    on: usize,
+    /// this step's multiplicity instead of the configuration's (sampled formatters only)
+    mult: Option<u64>,
+    /// not sent to the Lean model (hundreds of thousands of pushes: the list-based model is quadratic);
+    /// justified by theorem c14_history_independent: the model's later answers do not depend on it
+    skip: bool,
+    /// `(item, site, k)`: the entry panics while item number `item` is written - site `w`: in
+    /// `Entry::write` just before that item; `d`: the metric's dimension iterator panics after yielding k
+    /// pairs; `o`: its observation iterator panics after yielding k observations. The panic is contained
+    /// (`catch_unwind`) and the same formatter is used again.
+    panic: Option<(usize, char, usize)>,
 }
 
 #[derive(Clone)]
@@ -128,7 +205,7 @@ fn float_table(e: &GenEntry) -> String {
 
 impl Step {
     fn plain(entry: GenEntry) -> Step {
-        Step { entry, io: None, rate: None }
+        Step { entry, io: None, rate: None, pre: vec![], on: 0, mult: None, skip: false, panic: None }
     }
     fn has_timestamp(&self) -> bool {
         self.entry.items.iter().any(|i| matches!(i, GItem::Timestamp(_)))
@@ -140,6 +217,21 @@ impl Step {
         }
         if let Some(r) = self.rate {
             s.push_str(&format!(" rate:{r:08x}"));
+        }
+        if !self.pre.is_empty() {
+            s.push_str(&format!(" pre:{}", self.pre.iter().map(|o| o.encode()).collect::<Vec<_>>().join(",")));
+        }
+        if self.on != 0 {
+            s.push_str(&format!(" on:{}", self.on));
+        }
+        if let Some(m) = self.mult {
+            s.push_str(&format!(" m:{m}"));
+        }
+        if self.skip {
+            s.push_str(" skip");
+        }
+        if let Some((i, site, k)) = self.panic {
+            s.push_str(&format!(" panic:{i}:{site}{k}"));
         }
         s
     }
@@ -168,17 +260,32 @@ impl Case {
         let mut steps = vec![];
         for pair in parts[1..].chunks(2) {
             let entry = GenEntry::decode(pair[0])?;
-            let (mut io, mut rate) = (None, None);
+            let mut st = Step::plain(entry);
             for tok in pair[1].split_whitespace() {
                 if let Some(k) = tok.strip_prefix("io:") {
-                    io = Some(k.parse().ok()?);
+                    st.io = Some(k.parse().ok()?);
                 } else if let Some(r) = tok.strip_prefix("rate:") {
-                    rate = Some(u32::from_str_radix(r, 16).ok()?);
+                    st.rate = Some(u32::from_str_radix(r, 16).ok()?);
+                } else if let Some(ops) = tok.strip_prefix("pre:") {
+                    st.pre = ops.split(',').map(Op::decode).collect::<Option<Vec<_>>>()?;
+                } else if let Some(k) = tok.strip_prefix("on:") {
+                    st.on = k.parse().ok()?;
+                } else if let Some(m) = tok.strip_prefix("m:") {
+                    st.mult = Some(m.parse().ok()?);
+                } else if tok == "skip" {
+                    st.skip = true;
+                } else if let Some(p) = tok.strip_prefix("panic:") {
+                    let (i, sk) = p.split_once(':')?;
+                    let site = sk.chars().next()?;
+                    if !matches!(site, 'w' | 'd' | 'o') {
+                        return None;
+                    }
+                    st.panic = Some((i.parse().ok()?, site, sk[1..].parse().ok()?));
                 } else if !tok.starts_with("ft:") {
                     return None;
                 }
             }
-            steps.push(Step { entry, io, rate });
+            steps.push(st);
         }
         Some(Case { cfg, steps })
     }
@@ -228,7 +335,134 @@ impl Write for BudgetWriter {
     }
 }
 
+/// how a formatter of the pool is wrapped
+#[derive(Clone, Copy, PartialEq, Debug)]
+enum Kind {
+    Plain,
+    Sampled,
+    Globals,
+    Stream,
+}
+
+/// an `io::Write` handle that can be given away to `output_to` and still be inspected
+#[derive(Clone)]
+struct SharedOut(std::rc::Rc<std::cell::RefCell<BudgetWriter>>);
+
+impl Write for SharedOut {
+    fn write(&mut self, buf: &[u8]) -> io::Result<usize> {
+        self.0.borrow_mut().write(buf)
+    }
+    fn write_vectored(&mut self, bufs: &[IoSlice<'_>]) -> io::Result<usize> {
+        self.0.borrow_mut().write_vectored(bufs)
+    }
+    fn flush(&mut self) -> io::Result<()> {
+        Ok(())
+    }
+}
+
+type Emf = metrique_writer_format_emf::Emf;
+type FmtFn = Box<dyn FnMut(&Step, &mut BudgetWriter) -> Result<(), IoStreamError>>;
+
+/// one formatter of the pool
+enum Slot {
+    Plain(Emf),
+    Sampled(metrique_writer_format_emf::SampledEmf<ScriptedRng>),
+    /// `merge_globals` / `output_to`: the wrapper types only forward `format`
+    Wrapped(Kind, FmtFn),
+}
+
+/// the entry `merge_globals` puts in front of every entry (the Lean driver uses the same one)
+fn global_entry() -> GenEntry {
+    GenEntry { items: vec![GItem::Value("VerifGlobal".into(), GVal::Str("g".into()))], sample_group: vec![] }
+}
+
+impl Slot {
+    fn kind(&self) -> Kind {
+        match self {
+            Slot::Plain(_) => Kind::Plain,
+            Slot::Sampled(_) => Kind::Sampled,
+            Slot::Wrapped(k, _) => *k,
+        }
+    }
+    /// moves a plain `Emf` into the wrapper of the given kind
+    fn wrap(emf: Emf, kind: Kind) -> Slot {
+        use metrique_writer::format::FormatExt;
+        use metrique_writer_core::format::Format;
+        use metrique_writer_core::stream::EntryIoStream;
+        match kind {
+            Kind::Plain => Slot::Plain(emf),
+            Kind::Sampled => Slot::Sampled(emf.with_sampling_and_rng(ScriptedRng { words: vec![], pos: 0 })),
+            Kind::Globals => {
+                let mut f = emf.merge_globals(global_entry());
+                Slot::Wrapped(kind, Box::new(move |st, w| with_entry!(st, |e| f.format(e, w))))
+            }
+            Kind::Stream => {
+                let shared = SharedOut(std::rc::Rc::new(std::cell::RefCell::new(BudgetWriter { budget: None, accepted: vec![] })));
+                let mut stream = emf.output_to(shared.clone());
+                Slot::Wrapped(
+                    kind,
+                    Box::new(move |st, w| {
+                        std::mem::swap(&mut *shared.0.borrow_mut(), w);
+                        let r = with_entry!(st, |e| stream.next(e));
+                        std::mem::swap(&mut *shared.0.borrow_mut(), w);
+                        r
+                    }),
+                )
+            }
+        }
+    }
+    /// a freshly built formatter of this configuration, wrapped like a formatter of kind `kind`
+    fn fresh(cfg: &EmfCfg, kind: Kind) -> Option<Slot> {
+        if let Some(m) = cfg.multiplicity {
+            rate_for(m)?;
+        }
+        Some(Slot::wrap(cfg.build(), kind))
+    }
+}
+
+/// the rate that makes `rate_to_n` return exactly `m` (powers of two up to 2^52 and u64::MAX)
+fn rate_for(m: u64) -> Option<f32> {
+    if m == u64::MAX {
+        Some(f32::from_bits(0x1f00_0000)) // 2^-65
+    } else if m.is_power_of_two() && m <= (1u64 << 52) {
+        Some((1.0f64 / m as f64) as f32)
+    } else {
+        None
+    }
+}
+
+/// executes one pool operation; `None`: the operation does not apply (no such formatter / not a plain `Emf`)
+fn apply_op(pool: &mut Vec<Slot>, op: Op) -> Option<()> {
+    let k = match op {
+        Op::Clone(k) | Op::Sampling(k) | Op::Globals(k) | Op::Stream(k) => k,
+    };
+    if k >= pool.len() || pool[k].kind() != Kind::Plain {
+        return None;
+    }
+    match op {
+        Op::Clone(_) => {
+            let Slot::Plain(e) = &pool[k] else { return None };
+            let c = e.clone();
+            pool.push(Slot::Plain(c));
+        }
+        Op::Sampling(_) | Op::Globals(_) | Op::Stream(_) => {
+            let kind = match op {
+                Op::Sampling(_) => Kind::Sampled,
+                Op::Globals(_) => Kind::Globals,
+                _ => Kind::Stream,
+            };
+            // swap_remove + push back at the same index
+            let old = std::mem::replace(&mut pool[k], Slot::Wrapped(Kind::Plain, Box::new(|_, _| Ok(()))));
+            let Slot::Plain(e) = old else { return None };
+            pool[k] = Slot::wrap(e, kind);
+        }
+    }
+    Some(())
+}
+
 struct StepOut {
+    /// the kind of formatter that formatted the step
+    kind: Kind,
     /// `ok` | `io` | `val:<kinds>` | `io-<Kind>` (unexpected io kind) | `panic:<msg>`
     res: String,
     /// accepted bytes, timestamps masked when the entry had none
@@ -307,11 +541,90 @@ fn mask_timestamps(bytes: &[u8]) -> Vec<u8> {
     out
 }
 
-fn run_step(fmt: &mut BuiltFmt, step: &Step) -> StepOut {
+const PANIC_MSG: &str = "verif: user code panics while the entry is written";
+
+/// `GenEntry` whose `write` panics mid-way (see `Step::panic`); otherwise it makes exactly the writer
+/// calls of `GenEntry`
+struct PanicEntry<'e> {
+    e: &'e GenEntry,
+    item: usize,
+    site: char,
+    k: usize,
+}
+
+struct PanicMetric<'e> {
+    obs: &'e [Observation],
+    unit: Unit,
+    dims: &'e [(String, String)],
+    flags: GFlags,
+    site: char,
+    k: usize,
+}
+
+impl metrique_writer_core::Value for PanicMetric<'_> {
+    fn write(&self, writer: impl metrique_writer_core::ValueWriter) {
+        use metrique_writer_core::value::{FlagConstructor, MetricFlags};
+        let f = match self.flags {
+            GFlags::None => MetricFlags::empty(),
+            GFlags::HighRes => metrique_writer_format_emf::HighStorageResolutionCtor::construct(),
+            GFlags::NoMetric => metrique_writer_format_emf::NoMetricCtor::construct(),
+        };
+        let (ko, kd) = match self.site {
+            'o' => (self.k, usize::MAX),
+            _ => (usize::MAX, self.k),
+        };
+        let obs = self.obs.iter().copied().enumerate().map(move |(i, o)| if i >= ko { panic!("{PANIC_MSG}") } else { o });
+        let obs = obs.chain(std::iter::from_fn(move || -> Option<Observation> {
+            if ko != usize::MAX { panic!("{PANIC_MSG}") } else { None }
+        }));
+        let dims = self.dims.iter().enumerate().map(move |(i, (k, v))| if i >= kd { panic!("{PANIC_MSG}") } else { (k.as_str(), v.as_str()) });
+        let dims = dims.chain(std::iter::from_fn(move || -> Option<(&str, &str)> {
+            if kd != usize::MAX { panic!("{PANIC_MSG}") } else { None }
+        }));
+        writer.metric(obs, self.unit, dims, f)
+    }
+}
+
+impl metrique_writer_core::Entry for PanicEntry<'_> {
+    fn write<'a>(&'a self, writer: &mut impl metrique_writer_core::EntryWriter<'a>) {
+        use metrique_writer_core::Entry as _;
+        for (i, it) in self.e.items.iter().enumerate() {
+            if i == self.item {
+                match (self.site, it) {
+                    ('o' | 'd', GItem::Value(name, GVal::Metric { obs, unit, dims, flags })) => {
+                        writer.value(name.as_str(), &PanicMetric { obs, unit: *unit, dims, flags: *flags, site: self.site, k: self.k });
+                        continue;
+                    }
+                    _ => panic!("{PANIC_MSG}"),
+                }
+            }
+            match it {
+                GItem::Timestamp(us) => writer.timestamp(micros_to_system_time(*us)),
+                GItem::AllowSplit(c) => writer.config(c),
+                GItem::OtherCfg(c) => writer.config(c),
+                GItem::EntryDims(_, c) => writer.config(c),
+                GItem::Unroutable(_, e) => e.write(writer),
+                GItem::Value(name, v) => writer.value(name.as_str(), v),
+            }
+        }
+        if self.item >= self.e.items.len() {
+            panic!("{PANIC_MSG}"); // after the last field
+        }
+    }
+}
+
+fn run_step(fmt: &mut Slot, cfg: &EmfCfg, step: &Step) -> StepOut {
+    use metrique_writer_core::format::Format;
     let mut w = BudgetWriter { budget: step.io, accepted: vec![] };
-    let r = catch(|| match (&mut *fmt, step.rate) {
-        (BuiltFmt::Sampled(f, _), Some(bits)) => f.format_with_sample_rate(&step.entry, &mut w, f32::from_bits(bits)),
-        (f, _) => f.format(&step.entry, &mut w),
+    let kind = fmt.kind();
+    let r = catch(|| match &mut *fmt {
+        Slot::Plain(f) => with_entry!(step, |e| f.format(e, &mut w)),
+        Slot::Sampled(f) => match (step.rate, step.mult.or(cfg.multiplicity).and_then(rate_for)) {
+            (Some(bits), _) => with_entry!(step, |e| f.format_with_sample_rate(e, &mut w, f32::from_bits(bits))),
+            (None, Some(rate)) => with_entry!(step, |e| f.format_with_sample_rate(e, &mut w, rate)),
+            (None, None) => with_entry!(step, |e| f.format(e, &mut w)),
+        },
+        Slot::Wrapped(_, g) => g(step, &mut w),
     });
     let mut kinds = vec![];
     let res = match r {
@@ -327,16 +640,34 @@ fn run_step(fmt: &mut BuiltFmt, step: &Step) -> StepOut {
             kinds = m.iter().map(|(k, n)| (k.to_string(), *n)).collect();
             format!("val:{}", m.iter().map(|(k, n)| format!("{k}*{n}")).collect::<Vec<_>>().join(","))
         }
+        Err(p) if step.panic.is_some() && p.contains(PANIC_MSG) => "panic".to_string(),
         Err(p) => format!("panic:{p}"),
     };
     let bytes = if step.has_timestamp() { w.accepted } else { mask_timestamps(&w.accepted) };
-    StepOut { res, bytes, kinds }
+    StepOut { kind, res, bytes, kinds }
 }
 
 /// all steps on one persistent formatter; `None` when the cfg's multiplicity is unsupported
 fn run_case(c: &Case) -> Option<Vec<StepOut>> {
-    let mut fmt = catch(|| c.cfg.build_fmt()).ok()??;
-    Some(c.steps.iter().map(|s| run_step(&mut fmt, s)).collect())
+    let first = if c.cfg.multiplicity.is_some() { Kind::Sampled } else { Kind::Plain };
+    let mut pool = vec![catch(|| Slot::fresh(&c.cfg, first)).ok()??];
+    let mut outs = vec![];
+    for s in &c.steps {
+        for op in &s.pre {
+            catch(|| apply_op(&mut pool, *op)).ok()??;
+        }
+        if s.on >= pool.len() {
+            return None;
+        }
+        if (s.mult.is_some() || s.rate.is_some()) && pool[s.on].kind() != Kind::Sampled {
+            return None;
+        }
+        if let Some(m) = s.mult {
+            rate_for(m)?;
+        }
+        outs.push(run_step(&mut pool[s.on], &c.cfg, s));
+    }
+    Some(outs)
 }
 
 fn lines_of(bytes: &[u8]) -> Vec<&[u8]> {
@@ -382,6 +713,11 @@ fn observables(outs: &[StepOut]) -> String {
     outs.iter().map(observable).collect::<Vec<_>>().join(" | ")
 }
 
+/// what the Lean driver must reply: `skipped` for the steps that are not run in the model
+fn expected_reply(c: &Case, outs: &[StepOut]) -> String {
+    c.steps.iter().zip(outs).map(|(s, o)| if s.skip { "skipped".to_string() } else { observable(o) }).collect::<Vec<_>>().join(" | ")
+}
+
 // ------------------------------------------------------------------------------------------------
 // oracles
 
@@ -419,8 +755,9 @@ fn show(bytes: &[u8]) -> String {
 }
 
 /// C02 on one step. `parsed` = `strict_json::parse` of every line of `o.bytes`.
-fn oracle_c02(step: &Step, sampled: bool, o: &StepOut, parsed: &[Result<J, String>]) -> Option<(&'static str, String)> {
-    if o.res.starts_with("panic") {
+fn oracle_c02(step: &Step, o: &StepOut, parsed: &[Result<J, String>]) -> Option<(&'static str, String)> {
+    let sampled = o.kind == Kind::Sampled;
+    if o.res.starts_with("panic") && !(step.panic.is_some() && o.res == "panic") {
         return Some(("emf:panic", format!("formatting panicked: {}", o.res)));
     }
     if sampled {
@@ -467,11 +804,11 @@ fn oracle_c02(step: &Step, sampled: bool, o: &StepOut, parsed: &[Result<J, Strin
 /// C14 on a whole case
 fn oracle_c14(c: &Case, outs: &[StepOut]) -> Option<(&'static str, String)> {
     for (i, (step, o)) in c.steps.iter().zip(outs).enumerate() {
-        if o.res.starts_with("panic") {
+        if o.res.starts_with("panic") && !(step.panic.is_some() && o.res == "panic") {
             return Some(("emf:panic", format!("step {i}: formatting panicked: {}", o.res)));
         }
-        let mut fresh = c.cfg.build_fmt()?;
-        let f = run_step(&mut fresh, step);
+        let mut fresh = Slot::fresh(&c.cfg, o.kind)?;
+        let f = run_step(&mut fresh, &c.cfg, step);
         if f.res != o.res {
             return Some((
                 "emf:history-dependence",
@@ -508,9 +845,8 @@ fn parse_lines(o: &StepOut) -> Vec<Result<J, String>> {
 /// runs the case and the property's oracle: (key, what, impl observable)
 fn check_case(c: &Case, prop: Prop) -> Option<(&'static str, String, String)> {
     let outs = run_case(c)?;
-    let sampled = c.cfg.multiplicity.is_some();
     let f = match prop {
-        Prop::C02 => c.steps.iter().zip(&outs).find_map(|(s, o)| oracle_c02(s, sampled, o, &parse_lines(o))),
+        Prop::C02 => c.steps.iter().zip(&outs).find_map(|(s, o)| oracle_c02(s, o, &parse_lines(o))),
         Prop::C14 => oracle_c14(c, &outs),
     };
     f.map(|(k, w)| (k, w, brief_observables(&outs)))
@@ -532,7 +868,9 @@ fn brief_observables(outs: &[StepOut]) -> String {
 /// shrinks the step list, the formatter configuration and the item list of every entry while the
 /// same oracle (same key) keeps failing; a step keeps its timestamp (no needless clock dependence)
 fn shrink_case(c: &Case, prop: Prop, key: &str) -> Case {
-    let fails = |cc: &Case| check_case(cc, prop).map(|(k, _, _)| k == key).unwrap_or(false);
+    // bounded: oversized entries (hundreds of thousands of observations) take a noticeable time per run
+    let deadline = std::time::Instant::now() + std::time::Duration::from_secs(20);
+    let fails = |cc: &Case| std::time::Instant::now() < deadline && check_case(cc, prop).map(|(k, _, _)| k == key).unwrap_or(false);
     let mut cur = c.clone();
     if cur.steps.len() > 1 {
         let steps = shrink_list(&cur.steps, |s| !s.is_empty() && fails(&Case { cfg: cur.cfg.clone(), steps: s.to_vec() }));
@@ -562,6 +900,9 @@ fn shrink_case(c: &Case, prop: Prop, key: &str) -> Case {
         }
         for i in 0..cur.steps.len() {
             let had_ts = cur.steps[i].has_timestamp();
+            if std::time::Instant::now() >= deadline || cur.steps[i].entry.items.len() > 3_000 {
+                continue; // (delta debugging copies the list for every candidate)
+            }
             let items = shrink_list(&cur.steps[i].entry.items, |its| {
                 let mut cc = cur.clone();
                 cc.steps[i].entry.items = its.to_vec();
@@ -571,6 +912,9 @@ fn shrink_case(c: &Case, prop: Prop, key: &str) -> Case {
             // and the observation list of every remaining metric
             for k in 0..cur.steps[i].entry.items.len() {
                 let GItem::Value(name, GVal::Metric { obs, unit, dims, flags }) = cur.steps[i].entry.items[k].clone() else { continue };
+                if obs.len() > 5_000 || std::time::Instant::now() >= deadline {
+                    continue; // an oversized distribution is the point of the case
+                }
                 let with_obs = |o: &[Observation]| GItem::Value(name.clone(), GVal::Metric { obs: o.to_vec(), unit, dims: dims.clone(), flags });
                 let small = shrink_list(&obs, |o| {
                     let mut cc = cur.clone();
@@ -1093,7 +1437,7 @@ fn gen_c02_case(rng: &mut Rng, slot: u64, bumps: &mut Bumps) -> Case {
             } else {
                 None
             };
-            Case { cfg, steps: vec![Step { entry: entry(items), io: None, rate }] }
+            Case { cfg, steps: vec![Step { rate, ..Step::plain(entry(items)) }] }
         }
     }
 }
@@ -1115,8 +1459,11 @@ fn huge_string(rng: &mut Rng) -> String {
 fn unfaulted_len(cfg: &EmfCfg, step: &Step) -> usize {
     let mut probe = step.clone();
     probe.io = None;
-    match cfg.build_fmt() {
-        Some(mut f) => run_step(&mut f, &probe).bytes.len(),
+    probe.pre.clear();
+    probe.on = 0;
+    let first = if cfg.multiplicity.is_some() { Kind::Sampled } else { Kind::Plain };
+    match Slot::fresh(cfg, first) {
+        Some(mut f) => run_step(&mut f, cfg, &probe).bytes.len(),
         None => 0,
     }
 }
@@ -1150,11 +1497,12 @@ fn gen_c14_step(rng: &mut Rng, cfg: &EmfCfg, kind: &str, bumps: &mut Bumps) -> S
         }
         "bad-rate" => {
             let items = gen_valid_items(rng, cfg, EOpt { small: true, ..EOpt::default() });
-            Step { entry: entry(items), io: None, rate: Some(*rng.pick(INVALID_RATES)) }
+            Step { rate: Some(*rng.pick(INVALID_RATES)), ..Step::plain(entry(items)) }
         }
-        "huge" => {
+        "panic" => gen_panic_step(rng, cfg, bumps),
+        "huge-name" | "huge-string" => {
             let mut items = gen_valid_items(rng, cfg, EOpt { small: true, cd: Some(false), ..EOpt::default() });
-            if rng.chance(2, 3) {
+            if kind == "huge-string" {
                 // last among the strings
                 items.push(GItem::Value("Huge".into(), GVal::Str(huge_string(rng))));
             } else {
@@ -1185,18 +1533,88 @@ fn gen_c14_step(rng: &mut Rng, cfg: &EmfCfg, kind: &str, bumps: &mut Bumps) -> S
     }
 }
 
-fn gen_c14_case(rng: &mut Rng, huge: bool, bumps: &mut Bumps) -> Case {
+/// an entry that panics while it is written (contained by `catch_unwind`; the formatter is used again)
+fn gen_panic_step(rng: &mut Rng, cfg: &EmfCfg, bumps: &mut Bumps) -> Step {
+    let mut items = gen_valid_items(rng, cfg, EOpt { small: true, min_metrics: 1, ..EOpt::default() });
+    let metrics: Vec<usize> = items
+        .iter()
+        .enumerate()
+        .filter(|(_, it)| matches!(it, GItem::Value(n, GVal::Metric { .. }) if !n.is_empty() && n != "_aws"))
+        .map(|(i, _)| i)
+        .collect();
+    let site = match rng.below(10) {
+        0..=5 if !metrics.is_empty() => 'o',
+        6..=7 if !metrics.is_empty() && !cfg.allow_ignored => 'd',
+        _ => 'w',
+    };
+    bumps.bump(&format!("panic-site:{site}"));
+    let panic = match site {
+        'w' => (rng.range(0, items.len() as u64) as usize, 'w', 0),
+        'o' => {
+            let i = *rng.pick(&metrics);
+            let n = rng.range(2, 6) as usize;
+            if let GItem::Value(_, GVal::Metric { obs, .. }) = &mut items[i] {
+                *obs = (0..n).map(|_| if rng.chance(1, 6) { nan_obs(rng) } else { simple_obs(rng) }).collect();
+            }
+            // mostly after >= 2 observations: the interrupted Values loop then leaves counts behind
+            let k = if rng.chance(3, 4) { rng.range(2, n as u64) } else { rng.range(0, 1) } as usize;
+            (i, 'o', k)
+        }
+        _ => {
+            let i = *rng.pick(&metrics);
+            let mut n = 0;
+            if let GItem::Value(_, GVal::Metric { dims, .. }) = &mut items[i] {
+                if dims.is_empty() {
+                    dims.push(("Dim".to_string(), "v0".to_string()));
+                }
+                n = dims.len();
+            }
+            (i, 'd', rng.range(0, n as u64) as usize)
+        }
+    };
+    Step { panic: Some(panic), ..Step::plain(entry(items)) }
+}
+
+/// C02: an entry that panics mid-way, then ordinary entries on the same formatter (strict-JSON judged)
+fn gen_c02_panic_seq(rng: &mut Rng, bumps: &mut Bumps) -> Case {
+    bumps.bump("stream:panic-then-ordinary");
+    let (nasty, sampled) = (rng.chance(1, 6), rng.chance(3, 10));
+    let cfg = gen_cfg(rng, nasty, sampled);
+    let mut steps = vec![];
+    if rng.chance(1, 3) {
+        steps.push(Step::plain(entry(gen_valid_items(rng, &cfg, EOpt::default()))));
+    }
+    steps.push(gen_panic_step(rng, &cfg, bumps));
+    for _ in 0..rng.range(1, 2) {
+        let mut its = gen_valid_items(rng, &cfg, EOpt { small: true, ..EOpt::default() });
+        its.push(GItem::Value(
+            "Dist".into(),
+            GVal::Metric {
+                obs: vec![Observation::Unsigned(rng.below(9)), Observation::Unsigned(7)],
+                unit: Unit::None,
+                dims: vec![],
+                flags: GFlags::None,
+            },
+        ));
+        steps.push(Step::plain(entry(its)));
+    }
+    Case { cfg, steps }
+}
+
+fn gen_c14_case(rng: &mut Rng, huge: Option<u64>, bumps: &mut Bumps) -> Case {
     let (nasty, sampled) = (rng.chance(1, 6), rng.chance(3, 10));
     let cfg = gen_cfg(rng, nasty, sampled);
     let n = rng.range(2, 6) as usize;
-    let huge_at = if huge { Some(rng.below(n as u64) as usize) } else { None };
+    let huge_at = huge.map(|_| rng.below(n as u64 - 1) as usize); // never last: something must follow it
     let mut steps = vec![];
     for i in 0..n {
         let kind = if huge_at == Some(i) {
-            "huge"
+            // alternate deterministically: a huge metric name (fields_buf and metrics_buf) / a huge string
+            if huge.unwrap_or(0) % 2 == 0 { "huge-name" } else { "huge-string" }
         } else {
             match rng.below(100) {
-                0..=31 => "valid",
+                0..=25 => "valid",
+                26..=31 => "panic",
                 32..=56 => "defect",
                 57..=68 => "split",
                 69..=76 => "entry-dims",
@@ -1213,6 +1631,116 @@ fn gen_c14_case(rng: &mut Rng, huge: bool, bumps: &mut Bumps) -> Case {
             }
         };
         steps.push(gen_c14_step(rng, &cfg, kind, bumps));
+    }
+    // formatters obtained from a used formatter: clones (continuing on the clone AND on the original),
+    // with_sampling, merge_globals, output_to - only a plain `Emf` can be cloned or wrapped, so only in
+    // configurations without a configuration-level multiplicity
+    if cfg.multiplicity.is_none() && rng.chance(1, 2) {
+        bumps.bump("sequence:with-pool-ops");
+        let mut kinds = vec![Kind::Plain];
+        for (i, st) in steps.iter_mut().enumerate() {
+            let plain: Vec<usize> = (0..kinds.len()).filter(|k| kinds[*k] == Kind::Plain).collect();
+            if !plain.is_empty() && rng.chance(if i == 0 { 1 } else { 9 }, 20) {
+                let k = *rng.pick(&plain);
+                match rng.below(10) {
+                    0..=5 => {
+                        st.pre.push(Op::Clone(k));
+                        kinds.push(Kind::Plain);
+                    }
+                    6..=7 if kinds.len() > 1 || rng.chance(1, 3) => {
+                        st.pre.push(Op::Sampling(k));
+                        kinds[k] = Kind::Sampled;
+                    }
+                    8 if kinds.len() > 1 || rng.chance(1, 3) => {
+                        st.pre.push(Op::Globals(k));
+                        kinds[k] = Kind::Globals;
+                    }
+                    9 if kinds.len() > 1 || rng.chance(1, 3) => {
+                        st.pre.push(Op::Stream(k));
+                        kinds[k] = Kind::Stream;
+                    }
+                    _ => {
+                        st.pre.push(Op::Clone(k));
+                        kinds.push(Kind::Plain);
+                    }
+                }
+            }
+            // mostly the newest formatter or the one it was cloned from
+            st.on = if rng.chance(1, 2) { kinds.len() - 1 } else { rng.below(kinds.len() as u64) as usize };
+            if kinds[st.on] == Kind::Sampled {
+                match rng.below(10) {
+                    0..=5 => {
+                        st.mult = Some(match rng.below(4) {
+                            0 => 1,
+                            1 => 2,
+                            2 => 1u64 << rng.range(2, 52),
+                            _ => u64::MAX,
+                        })
+                    }
+                    6 => st.rate = Some(*rng.pick(INVALID_RATES)),
+                    _ => {}
+                }
+            }
+        }
+    }
+    Case { cfg, steps }
+}
+
+/// C02: an oversized entry (one that pushes a prefixed buffer of the formatter past 1 MiB, so that the
+/// next `clear` takes its shrink path) followed by ordinary entries; every step is strict-JSON judged
+fn gen_c02_oversized(rng: &mut Rng, which: u64, bumps: &mut Bumps) -> Case {
+    let kind = ["observations", "observations-sampled", "many-metrics", "metric-name", "string", "entry-dimension"][(which % 6) as usize];
+    bumps.bump(&format!("oversized:{kind}"));
+    let mut cfg = gen_cfg(rng, false, kind == "observations-sampled");
+    if kind == "observations-sampled" {
+        cfg.multiplicity = Some(u64::MAX); // 20-digit counts: 60 000 observations make counts_buf exceed 1 MiB
+    }
+    let mut items = gen_valid_items(rng, &cfg, EOpt { small: true, cd: Some(false), ..EOpt::default() });
+    let mut skip = false;
+    match kind {
+        "observations" | "observations-sampled" => {
+            // fields_buf and counts_buf
+            let n = if kind == "observations" { rng.range(560_000, 700_000) } else { rng.range(56_000, 70_000) } as usize;
+            let mut obs = vec![Observation::Unsigned(rng.below(10)); n];
+            if rng.chance(1, 2) {
+                obs[n - 1] = Observation::Floating(f64::NAN); // and a skipped last observation
+            }
+            items.push(GItem::Value("Big".into(), GVal::Metric { obs, unit: Unit::None, dims: vec![], flags: GFlags::None }));
+            skip = true;
+        }
+        "many-metrics" => {
+            // metrics_buf and fields_buf
+            for i in 0..rng.range(70_000, 90_000) {
+                items.push(GItem::Value(
+                    format!("Metric{i:07}"),
+                    GVal::Metric { obs: vec![Observation::Unsigned(i)], unit: Unit::None, dims: vec![], flags: GFlags::None },
+                ));
+            }
+            skip = true;
+        }
+        "metric-name" => items.push(GItem::Value(huge_string(rng), small_metric(rng, vec![]))),
+        "string" => items.push(GItem::Value("Huge".into(), GVal::Str(huge_string(rng)))),
+        _ => {
+            // dimensions_buf: an entry dimension with a huge name (and the string member it refers to)
+            let name = "d".repeat(rng.range(1_153_434, 1_400_000) as usize);
+            let at = items.iter().position(|i| matches!(i, GItem::Value(_, GVal::Metric { .. }))).unwrap_or(items.len());
+            items.insert(at, GItem::entry_dims(vec![vec![name.clone()]]));
+            items.insert(at, GItem::Value(name, GVal::Str("v".into())));
+        }
+    }
+    let mut steps = vec![Step { skip, ..Step::plain(entry(items)) }];
+    for _ in 0..rng.range(2, 3) {
+        let mut its = gen_valid_items(rng, &cfg, EOpt { min_metrics: 1, ..EOpt::default() });
+        its.push(GItem::Value(
+            "Dist".into(),
+            GVal::Metric {
+                obs: vec![Observation::Unsigned(rng.below(9)), Observation::Unsigned(7)],
+                unit: Unit::Count,
+                dims: vec![],
+                flags: GFlags::None,
+            },
+        ));
+        steps.push(Step::plain(entry(its)));
     }
     Case { cfg, steps }
 }
@@ -1271,6 +1799,26 @@ fn describe(c: &Case, outs: &[StepOut], parsed: &[Vec<Result<J, String>>], prop:
         }
         if st.io.is_some() {
             b.bump("step:io-budget");
+        }
+        for op in &st.pre {
+            b.bump(match op {
+                Op::Clone(_) => if i == 0 { "pool-op:clone-of-unused" } else { "pool-op:clone-of-used" },
+                Op::Sampling(_) => "pool-op:with_sampling",
+                Op::Globals(_) => "pool-op:merge_globals",
+                Op::Stream(_) => "pool-op:output_to",
+            });
+        }
+        if c.steps.iter().any(|s| !s.pre.is_empty()) {
+            b.bump(&format!("pool-step:formatted-by-{:?}{}", o.kind, if st.on == 0 { "(original)" } else { "(clone)" }));
+        }
+        if st.mult.is_some() {
+            b.bump("step:own-multiplicity");
+        }
+        if st.skip {
+            b.bump("step:not-modelled(oversized)");
+        }
+        if let Some((_, site, k)) = st.panic {
+            b.bump(&format!("step:panics-{}", match site { 'o' => if k >= 2 { "in-observation-iterator(counts left behind)" } else { "in-observation-iterator(k<2)" }, 'd' => "in-dimension-iterator", _ => "in-entry-write" }));
         }
         if let Some(r) = st.rate {
             b.bump(if invalid_rate(r) { "step:invalid-rate" } else { "step:explicit-rate" });
@@ -1380,7 +1928,7 @@ fn describe(c: &Case, outs: &[StepOut], parsed: &[Vec<Result<J, String>>], prop:
         if values_form || escaped || o.res.starts_with("val:") || lines.len() >= 2 {
             nontrivial_c02 = true;
         }
-        if i + 1 < c.steps.len() && (o.res != "ok" || lines.len() >= 2 || o.bytes.len() > 1_000_000) {
+        if i + 1 < c.steps.len() && (o.res != "ok" || lines.len() >= 2 || o.bytes.len() > 1_000_000 || !st.pre.is_empty() || st.panic.is_some()) {
             interesting_before_last = true;
         }
     }
@@ -1646,9 +2194,8 @@ fn process_case(c: &Case, prop: Prop, want_pool: bool) -> CaseResult {
         return CaseResult { obs: String::new(), nontrivial: false, failure: None, skipped: true, bumps, pool_lines: vec![] };
     };
     let parsed: Vec<Vec<Result<J, String>>> = outs.iter().map(parse_lines).collect();
-    let sampled = c.cfg.multiplicity.is_some();
     let failure = match prop {
-        Prop::C02 => c.steps.iter().zip(&outs).zip(&parsed).find_map(|((s, o), p)| oracle_c02(s, sampled, o, p)),
+        Prop::C02 => c.steps.iter().zip(&outs).zip(&parsed).find_map(|((s, o), p)| oracle_c02(s, o, p)),
         Prop::C14 => oracle_c14(c, &outs),
     };
     let nontrivial = describe(c, &outs, &parsed, prop, &mut bumps);
@@ -1666,7 +2213,7 @@ fn process_case(c: &Case, prop: Prop, want_pool: bool) -> CaseResult {
             }
         }
     }
-    CaseResult { obs: observables(&outs), nontrivial, failure, skipped: false, bumps, pool_lines }
+    CaseResult { obs: expected_reply(c, &outs), nontrivial, failure, skipped: false, bumps, pool_lines }
 }
 
 struct Run {
@@ -1778,7 +2325,7 @@ fn loopback() {
         let reply = if let Some(h) = line.strip_prefix("J ") {
             unhex(h.trim()).map(|b| verdict(&b).to_string())
         } else if line.starts_with('F') && line.len() > 3 {
-            Case::decode(&line[3..]).and_then(|c| run_case(&c)).map(|o| observables(&o))
+            Case::decode(&line[3..]).and_then(|c| run_case(&c).map(|o| expected_reply(&c, &o)))
         } else {
             None
         };
@@ -1795,14 +2342,16 @@ fn main() {
     let prop = if args.property == "C14" { Prop::C14 } else { Prop::C02 };
     let rule = match prop {
         Prop::C02 => {
-            "case = (formatter configuration, one entry [+ sample rate]); non-trivial = the step wrote at least one \
+            "case = (formatter configuration, one entry [+ sample rate]) or (configuration, one oversized entry, 2-3 \
+             ordinary entries on the same formatter); non-trivial = the step wrote at least one \
              record containing a metric in Values/Counts form or a string needing escaping, or produced a validation \
              error, or wrote >= 2 records; distinct by case text"
         }
         Prop::C14 => {
             "case = (formatter configuration, 2-6 steps on one persistent formatter); non-trivial = at least one step \
-             before the last one was rejected, failed with an io error, wrote >= 2 records (split) or was huge \
-             (> 1 MB); distinct by case text"
+             before the last one was rejected, failed with an io error, wrote >= 2 records (split), was huge \
+             (> 1 MB) or was preceded by a pool operation (clone / with_sampling / merge_globals / output_to of a \
+             formatter); distinct by case text"
         }
     };
     let mut rep = Report::new(&args, "emf", rule);
@@ -1869,21 +2418,37 @@ fn main() {
                     process_batch(&mut run, &mut rep, &cases);
                     i += batch;
                 }
+                // sequences: an entry that panics mid-way, then ordinary entries
+                let n_panic: u64 = if args.thorough() { 6_000 } else { 200 };
+                let mut prng = rng.fork(0x9a1c);
+                let cases: Vec<Case> = (0..n_panic).map(|_| gen_c02_panic_seq(&mut prng, &mut gb)).collect();
+                for chunk in cases.chunks(2_000) {
+                    process_batch(&mut run, &mut rep, chunk);
+                }
+                // sequences: one oversized entry per kind of prefixed buffer, then ordinary entries
+                let n_over: u64 = if args.thorough() { 48 } else { 6 };
+                let mut orng = rng.fork(0x0b16);
+                let cases: Vec<Case> = (0..n_over).map(|k| gen_c02_oversized(&mut orng, k, &mut gb)).collect();
+                for chunk in cases.chunks(12) {
+                    process_batch(&mut run, &mut rep, chunk);
+                }
             }
             Prop::C14 => {
                 let n: u64 = if args.thorough() { 60_000 } else { 1_500 };
-                // exactly 48 (thorough) / 3 (quick) sequences contain a multi-megabyte step: the Lean side
+                // exactly 48 (thorough) / 4 (quick) sequences contain a multi-megabyte step: the Lean side
                 // needs about 2 s for each of them
                 let huge_every: u64 = match args.extra.get("huge-every").and_then(|v| v.parse().ok()) {
                     Some(e) if e >= 2 => e,
                     _ if args.thorough() => n / 48,
-                    _ => n / 3,
+                    _ => n / 4,
                 };
                 let batch = 1_000;
                 let mut i = 0;
                 while i < n {
                     let cases: Vec<Case> =
-                        (i..(i + batch).min(n)).map(|k| gen_c14_case(&mut rng, k % huge_every == huge_every / 2, &mut gb)).collect();
+                        (i..(i + batch).min(n))
+                            .map(|k| gen_c14_case(&mut rng, if k % huge_every == huge_every / 2 { Some(k / huge_every) } else { None }, &mut gb))
+                            .collect();
                     process_batch(&mut run, &mut rep, &cases);
                     i += batch;
                 }
